@@ -59,6 +59,7 @@ from harness import core, tables_io
 from harness import coder_io as C
 from harness import coderprops as P
 from harness import streams as S
+from harness import defstreams as DS
 
 PROP = 'C12'
 
@@ -1539,6 +1540,8 @@ def run(ctx):
     timed('histories', run_histories, ctx, drv, treq, ctx.rng('history'), pool, variants, 240 if quick else 2400)
     timed('truncation', run_truncation, ctx, drv, treq, rt, pool_t, 4 if quick else 30)
     timed('cli', run_cli, ctx, drv, treq, rc, pool_c)
+    # continue-on-error scans of streams with table definition messages (and a garbage piece) under filters (F25)
+    timed('defstreams', DS.run, ctx, ctx.rng('defstreams'), 4 if quick else 40, (True,), True)
     ctx.notes.append('wall: ' + ', '.join(wall))
 
 
@@ -1546,6 +1549,9 @@ def replay(ctx, path):
     with open(path) as f:
         body = json.load(f)
     rep = body['replay']
+    if rep.get('defstream'):
+        DS.replay(ctx, rep)
+        return
     drv = ctx.driver
     treq = tables_io.group_request()
     if 'undischarged' in rep:
